@@ -243,6 +243,8 @@ def build_problem(run):
     if geo == "unb":
         kw["lower_bounds"] = None
         kw["upper_bounds"] = None
+    if job.get("gamma") is not None:
+        kw["gamma_uncertain_interval"] = job["gamma"]
     return kw
 
 
@@ -590,6 +592,8 @@ def install_observers(run, patch):
         try:
             us, z = o_call(self, u, lb_, ub_, fl, gp, optim_state, sum_rule, non_box_cons)
             hold = [h for h in run.es_holder if len(h[1])]
+            if not hold and np.size(us) > 0:
+                run.v("C18", "the strategy proposed a point although no candidate survived the filters", "es-proposal-without-survivors", np.ravel(us)[:3].tolist())
             if hold:
                 allz = np.concatenate([b_ for a_, b_ in hold])
                 allx = np.vstack([a_ for a_, b_ in hold])
